@@ -552,6 +552,63 @@ theorem stamp_heads {h : Hist} {o : LoadOpts} {m : LMap} (hl : load h o = .ok m)
       · exact hx
     · exact Or.inr
 
+/-! ### the oracle `Spec.Rev.stampOk`, evaluated on the implementation's rows, decides the statement -/
+
+theorem nodupB_iff : ∀ (l : List Id), nodupB l = true ↔ l.Nodup
+  | [] => by simp [nodupB]
+  | x :: r => by simp [nodupB, nodupB_iff r]
+
+/-- the oracle's descendant set decides `IsDesc` when every referenced revision exists -/
+theorem mem_descSet_iff (h : Hist) (hd : ∀ c ∈ ids h, ∀ p ∈ parents h c, p ∈ ids h) (roots : List Id) (x : Id) :
+    x ∈ descSet h roots ↔ IsDesc h roots x := by
+  unfold descSet Spec.Rev.closure IsDesc
+  apply mem_closureOf_iff
+  intro i hi
+  unfold children
+  apply List.filter_eq_nil_iff.mpr
+  intro c hc
+  simp only [decide_eq_true_eq]
+  exact fun hp => hi (hd c hc i hp)
+
+/-- **What a `true` verdict of the stamp oracle means** (for at least one destination): the rows
+after the command are duplicate-free and are exactly the old rows outside every destination's
+lineage (ancestors and descendants through down-revisions and dependencies, as written in the
+history) plus the destinations. -/
+theorem stampOk_sound (h : Hist) (hd : ∀ c ∈ ids h, ∀ p ∈ parents h c, p ∈ ids h)
+    (rows dests rows' : List Id) (hne : dests ≠ []) (hok : stampOk h rows dests rows' = true) :
+    rows'.Nodup ∧ ∀ x, x ∈ rows' ↔
+      (x ∈ rows ∧ ∀ d ∈ dests, ¬ (IsAnc h [d] x ∨ IsDesc h [d] x)) ∨ x ∈ dests := by
+  unfold stampOk at hok
+  have he : dests.isEmpty = false := by cases dests <;> simp_all
+  simp only [he, Bool.false_eq_true, if_false, Bool.and_eq_true] at hok
+  obtain ⟨⟨h1, h2⟩, _⟩ := hok
+  refine ⟨(nodupB_iff _).mp h1, ?_⟩
+  have hlin : ∀ d x, lineage h d x = true ↔ (IsAnc h [d] x ∨ IsDesc h [d] x) := by
+    intro d x
+    unfold lineage
+    rw [Bool.or_eq_true, decide_eq_true_eq, decide_eq_true_eq, Lemmas.Rev.mem_ancSet_iff, mem_descSet_iff h hd]
+  have hkeep : ∀ x, x ∈ rows.filter (fun x => !(dests.any (fun d => lineage h d x))) ↔
+      x ∈ rows ∧ ∀ d ∈ dests, ¬ (IsAnc h [d] x ∨ IsDesc h [d] x) := by
+    intro x
+    rw [List.mem_filter]
+    simp only [Bool.not_eq_true', List.any_eq_false]
+    constructor
+    · rintro ⟨hx, hall⟩; exact ⟨hx, fun d hdm hl => hall d hdm ((hlin d x).mpr hl)⟩
+    · rintro ⟨hx, hall⟩; exact ⟨hx, fun d hdm hl => hall d hdm ((hlin d x).mp hl)⟩
+  unfold sameSet at h2
+  simp only [Bool.and_eq_true, List.all_eq_true, decide_eq_true_eq] at h2
+  intro x
+  constructor
+  · intro hx
+    rcases List.mem_append.mp (h2.1 x hx) with hk | hdm
+    · exact Or.inl ((hkeep x).mp hk)
+    · exact Or.inr (List.mem_filter.mp hdm).1
+  · rintro (hk | hdm)
+    · exact h2.2 x (List.mem_append_left _ ((hkeep x).mpr hk))
+    · by_cases hin : x ∈ rows.filter (fun x => !(dests.any (fun d => lineage h d x)))
+      · exact h2.2 x (List.mem_append_left _ hin)
+      · exact h2.2 x (List.mem_append_right _ (List.mem_filter.mpr ⟨hdm, by simp only [decide_eq_true_eq]; exact hin⟩))
+
 /-! ### non-vacuity: the history of the repaired defect F4 (`a, b; c <- a`, rows `{a, b}`) -/
 
 def f4 : Hist := [⟨"a", [], [], []⟩, ⟨"b", [], [], []⟩, ⟨"c", ["a"], [], []⟩]
